@@ -19,7 +19,7 @@ export CARGO_TARGET_DIR=$W/target
 ( cargo test -p yrs --features weak --test mutant_demo --offline 2>&1 | tail -5 ) > $OUT/demo_without.log; grep -q "test result: ok" $OUT/demo_without.log; DEMO_BASE=$?
 git apply $OUT/patch.diff; APPLY=$?
 ( cargo build -p yrs --features weak --offline 2>&1 && cargo build -p yffi --offline 2>&1 ) | tail -3 > $OUT/build.log; grep -q "^error" $OUT/build.log; BUILD_ERR=$?
-( cargo test -p yrs --features weak --lib --offline -- --skip test_medium_data_set --skip edit_trace_automerge 2>&1 | grep -E "^test result|FAILED|failed" | tail -5 ) > $OUT/suite.log; grep -q "test result: ok" $OUT/suite.log; SUITE=$?
+( cargo test -p yrs --features weak --lib --offline -- --skip test_medium_data_set --skip edit_trace_automerge --skip edit_trace_sephblog1 2>&1 | grep -E "^test result|FAILED|failed" | tail -5 ) > $OUT/suite.log; grep -q "test result: ok" $OUT/suite.log; SUITE=$?
 ( cargo test -p yrs --features weak --test mutant_demo --offline 2>&1 | tail -8 ) > $OUT/demo_with.log; grep -q "test result: FAILED\|panicked\|error\[" $OUT/demo_with.log; DEMO_MUT=$?
 python3 - <<PY
 import json
@@ -27,7 +27,7 @@ meta = {"id": "$ID", "property": "$PROP", "patch_applies": $APPLY == 0, "compile
         "existing_tests_pass_with_change": $SUITE == 0, "demo_passes_without_change": $DEMO_BASE == 0, "demo_fails_with_change": $DEMO_MUT == 0,
         "ran": ["cargo test -p yrs --features weak --test mutant_demo --offline (unchanged tree)", "git apply patch.diff",
                 "cargo build -p yrs --features weak --offline; cargo build -p yffi --offline",
-                "cargo test -p yrs --features weak --lib --offline -- --skip test_medium_data_set --skip edit_trace_automerge",
+                "cargo test -p yrs --features weak --lib --offline -- --skip test_medium_data_set --skip edit_trace_automerge --skip edit_trace_sephblog1",
                 "cargo test -p yrs --features weak --test mutant_demo --offline (changed tree)"],
         "suite_result": open("$OUT/suite.log").read().strip()[-300:]}
 meta["confirmed"] = all(meta[k] for k in ("patch_applies", "compiles", "existing_tests_pass_with_change", "demo_passes_without_change", "demo_fails_with_change"))
